@@ -209,7 +209,7 @@ let () =
                                     (match db with Some x -> Some (norm_bool kd x) | None -> None))))
           | ["fs"; kd; name; idx; op; v; d] -> push (FStr (kd = "n", bytes_of_hex name, num idx, num8 op, bytes_of_hex v, opt_hex d))
           | ["fr"; name; idx; op; tc; v; d] ->
-              if v = "" || d = "" then false       (* empty value / default buffers are outside the modelled domain *)
+              if v = "" then false       (* an empty value buffer is outside the modelled domain *)
               else push (FRaw (bytes_of_hex name, num idx, num8 op, num tc, opt_hex v, opt_hex d))
           | ["fm"; name; idx; haskid; dreg] ->
               let kid = if haskid = "1" then (match !stack with k :: t -> stack := t; OSome k | [] -> ONone) else ONone in
